@@ -37,6 +37,10 @@ type LocalFlowControlWrapper interface {
 	flowcontrol.FlowControl
 	Sync(proxyv1alpha1.FlowControlSchema)
 	Config() proxyv1alpha1.FlowControlSchema
+	// Current returns the limiter that is in force right now. It is resized in place but
+	// replaced when the schema type changes, so a request must keep it, not the wrapper,
+	// to give its slot back to the limiter that admitted it.
+	Current() flowcontrol.FlowControl
 }
 
 type RemoteFlowControlWrapper interface {
@@ -148,6 +152,10 @@ type localWrapper struct {
 
 func (f *localWrapper) Config() proxyv1alpha1.FlowControlSchema {
 	return f.localConfig
+}
+
+func (f *localWrapper) Current() flowcontrol.FlowControl {
+	return f.FlowControl
 }
 
 func (f *localWrapper) Sync(schema proxyv1alpha1.FlowControlSchema) {
